@@ -145,7 +145,13 @@ def _calculate_emax_extreme_value_shocks(values, choice_axes, choice_segments, p
     scale = params["additive_utility_shock"]["scale"]
     out = values
     if choice_axes is not None:
-        out = scale * jax.scipy.special.logsumexp(out / scale, axis=choice_axes)
+        # Subtract the maximum before dividing by the scale: the division can overflow
+        # for small scales, and under jit it may be evaluated separately for the maximum
+        # and for the sum of exponentials inside logsumexp.
+        _max = jnp.max(out, axis=choice_axes, keepdims=True)
+        out = jnp.squeeze(_max, axis=choice_axes) + scale * (
+            jax.scipy.special.logsumexp((out - _max) / scale, axis=choice_axes)
+        )
     if choice_segments is not None:
         out = _segment_extreme_value_emax_over_first_axis(out, scale, choice_segments)
 
@@ -169,7 +175,14 @@ def _segment_extreme_value_emax_over_first_axis(a, scale, segment_info):
         jax.numpy.ndarray
 
     """
-    return scale * _segment_logsumexp(a / scale, segment_info)
+    # Subtract the segment maximum before dividing by the scale (see above)
+    segmax = jax.ops.segment_max(
+        data=a,
+        indices_are_sorted=True,
+        **segment_info,
+    )
+    centered = a - segmax[segment_info["segment_ids"]]
+    return segmax + scale * _segment_logsumexp(centered / scale, segment_info)
 
 
 def _segment_logsumexp(a, segment_info):
